@@ -192,4 +192,6 @@ def run(chk, tier):
     chk.expect(ok, "max-pdu", "process_a_association_rq", "from-request", "if len == 0 { MAXIMUM_PDU_SIZE } else { len.min(MAXIMUM_PDU_SIZE) }", H.show(asg[0][3], 6) if asg else None)
     chk.expect(len(no) == 1 and H.path_of(H.struct_field(no[0], "peer_max_pdu_length")) == "requestor_max_pdu_length", "max-pdu", "process_a_association_rq", "stored-as-peer-max",
                "peer_max_pdu_length: requestor_max_pdu_length", len(no))
+    from . import shared
+    shared.trim_uid(chk, fx, "uid-trim")
     chk.undecided.append("the value of the decision function over all requests and configurations (needs evaluation); access-control policies supplied by users")
